@@ -20,6 +20,7 @@ import (
 	"os"
 	"path/filepath"
 	"regexp"
+	"runtime/debug"
 	"sort"
 	"strconv"
 	"strings"
@@ -635,10 +636,33 @@ func newRequest(method, target string, body io.Reader) (req *http.Request, err e
 // ---------------------------------------------------------------- observation
 
 type Served struct {
-	Code   int
-	Header http.Header
-	Body   []byte
-	Panic  bool
+	Code    int
+	Header  http.Header
+	Body    []byte
+	Panic   bool
+	PanicIn string // function in which the panic was raised (first non-runtime frame)
+}
+
+// panicOrigin returns the function that raised the panic: the first frame below the runtime's panic machinery.
+func panicOrigin(stack string) string {
+	seenPanic := false
+	for _, line := range strings.Split(stack, "\n") {
+		if line == "" || line[0] == '\t' || strings.HasPrefix(line, "goroutine ") {
+			continue
+		}
+		f := line
+		if k := strings.LastIndex(f, "("); k > 0 {
+			f = f[:k]
+		}
+		if strings.HasPrefix(f, "panic") || strings.HasPrefix(f, "runtime.") {
+			seenPanic = true
+			continue
+		}
+		if seenPanic {
+			return f
+		}
+	}
+	return "unknown"
 }
 
 func Serve(h http.Handler, req *http.Request) (s Served) {
@@ -647,6 +671,7 @@ func Serve(h http.Handler, req *http.Request) (s Served) {
 		defer func() {
 			if e := recover(); e != nil {
 				s.Panic = true
+				s.PanicIn = panicOrigin(string(debug.Stack()))
 			}
 		}()
 		h.ServeHTTP(rw, req)
